@@ -125,6 +125,9 @@ func (s Scenario) exec(env *sim.Env, p *sim.Plan, bubble bool) *sim.Result {
 	defer w.Close()
 	w.InBubble = bubble
 	r := NewRunner(w)
+	if p.CfgInt("save_all", 0) != 0 {
+		r.SaveAll = true
+	}
 	r.Plan = p
 	if s.Mixed {
 		ns := workloadNames()
@@ -244,18 +247,37 @@ func withFresh(gen func(seed uint64, tier string) *sim.Plan) func(seed uint64, t
 	}
 }
 
+// withReadFault inserts "rdfault" steps (one-shot disk read error inside a send, after the head was
+// persisted and the caches emptied) into half of the plans; those plans persist every block.
+func withReadFault(gen func(seed uint64, tier string) *sim.Plan) func(seed uint64, tier string) *sim.Plan {
+	return func(seed uint64, tier string) *sim.Plan {
+		p := gen(seed, tier)
+		fr := sim.NewRNG(seed).Child("rdfault")
+		if fr.Intn(2) != 0 || len(p.Steps) == 0 {
+			return p
+		}
+		p.Cfg["save_all"] = 1
+		for k := fr.Range(1, 4); k > 0; k-- {
+			at := len(p.Steps)/4 + fr.Intn(len(p.Steps)-len(p.Steps)/4+1)
+			st := sim.Step{Op: "rdfault", A: fr.Intn(12), I: []int64{int64(fr.Intn(14)), int64(fr.Intn(14))}}
+			p.Steps = append(p.Steps[:at], append([]sim.Step{st}, p.Steps[at:]...)...)
+		}
+		return p
+	}
+}
+
 var coreWeights = map[string]int{"send": 10, "call": 10, "pour": 3, "data": 1, "replay": 2, "block": 4, "clock": 1}
 
 func init() {
 	sim.Register(&sim.Check{
 		ID: "C01", Title: "Total token supply is conserved by every transaction", World: "ledger",
-		Gen:   withFresh(Scenario{Weights: coreWeights, Lo: 20, Hi: 120, Mixed: true}.Gen),
+		Gen:   withReadFault(withFresh(Scenario{Weights: coreWeights, Lo: 20, Hi: 120, Mixed: true}.Gen)),
 		Exec:  baseExec("C01", func(w *World) []Observer { return []Observer{OracleC01{}} }),
 		Quick: sim.Budget{Runs: 320, WallS: 90}, Thorough: sim.Budget{Runs: 20000, WallS: 1500},
 		LevelText: "seeded search over transaction histories (every transaction type, every registered contract function with well-formed/boundary/malformed payloads, boundary values and fees, replays) on a real chain with all contracts; " +
 			"conservation decided on a structural MPT diff per transaction and a full trie walk per block; a clean batch is evidence, not proof",
 		LevelNote: "account leaves are the leaves not written through the contract StateContext API (hook H1); trusted: MPT node decoding, the oracle's big-integer sum",
-		Technique: "deterministic simulation: seeded workload + fault (replay, rejection, chargeable failure) injection, MPT-diff conservation oracle",
+		Technique: "deterministic simulation: seeded workload + fault (replay, rejection, chargeable failure, one-shot disk read error inside a send after a restart-like cache reset) injection, MPT-diff conservation oracle",
 		DesignRef: "6/C01", Regime: "single-threaded event loop (one transaction at a time through Chain.UpdateState)",
 		Components: w1Components,
 	})
